@@ -4,12 +4,14 @@ import (
 	"encoding/base64"
 	"encoding/json"
 	"fmt"
+	"math/big"
 	"sync"
 
 	dbm "github.com/cometbft/cometbft-db"
 	"pgregory.net/rapid"
 
 	"verif/chain"
+	"verif/ref"
 )
 
 var (
@@ -136,6 +138,9 @@ func GenGenesis(t *rapid.T, prof *Profile) GenesisSpec {
 		rates = []string{"", "0.01", "0.02", "0.1", "0.000001", "0.25"}
 	}
 	br, sr := rates[draw("g.buyerfee", len(rates))], rates[draw("g.sellerfee", len(rates))]
+	if r, ok := ref.ParseRat(sr); ok && r.Cmp(big.NewRat(1, 1)) > 0 {
+		sr = "1" // seller rates above 1 are rejected by genesis validation
+	}
 	if br != "" || sr != "" || draw("g.feeparams.set", 2) == 0 {
 		doc["regen.ecocredit.marketplace.v1.FeeParams"] = mustJSON(map[string]interface{}{"buyer_percentage_fee": br, "seller_percentage_fee": sr})
 		g.Notes = append(g.Notes, fmt.Sprintf("feeparams=%q/%q", br, sr))
